@@ -3,7 +3,7 @@
 # Runs the property's check against the seeded change.  Default: in a scratch worktree (VERIF_REPO);
 # with --in-repo: git -C /repo apply, run, git -C /repo checkout -- .  (only when nothing else uses /repo).
 ID=$1; TIER=${2:-quick}; MODE=${3:-}
-PROP=${ID%%-*}
+PROP=${4:-${ID%%-*}}     # 4th argument: run ANOTHER property's check against this change
 cd /verif
 if [ "$MODE" = "--in-repo" ]; then
   git -C /repo apply seeded/$ID/patch.diff || exit 2
@@ -18,4 +18,10 @@ else
   git -C /repo worktree remove --force $WT
 fi
 echo "$OUT" | cut -c1-220 | tail -4
-echo "seed=$ID tier=$TIER rc=$RC $( [ $RC = 1 ] && echo CAUGHT || echo MISSED )"
+KIND=""
+if [ $RC = 1 ]; then
+  if echo "$OUT" | grep "^VIOLATION" | grep -qv "no-failing-input-found"; then KIND="CAUGHT(failing-input)"; else KIND="CAUGHT(no-failing-input-found)"; fi
+  RP=$(echo "$OUT" | grep -m1 "^VIOLATION" | sed 's/.*replay=\([^ ]*\).*/\1/')
+  if [ -f "/verif/$RP" ] && grep -q "lake build" "/verif/$RP" 2>/dev/null; then KIND="BROKEN-BUILD(rerun)"; fi
+else KIND="MISSED"; fi
+echo "seed=$ID check=$PROP tier=$TIER rc=$RC $KIND"
